@@ -397,7 +397,7 @@ static CMDResult CMD_EntryAddress(Boolean Negate, char const* pArg) {
             if (pName && *pName) {
                 String Str;
 
-                as_snprintf(Str, sizeof(Str), "Vector_2_%s", pName);
+                as_snprintf(Str, sizeof(Str), "Vector_%u_%s", (unsigned)AddrLen, pName);
                 AddInvSymbol(Str, VectorAddress);
             }
         } else {
@@ -567,6 +567,11 @@ static void DisasmIterator(OneChunk const* pChunk, Boolean IsData, void* pUser) 
         }
         fputc('\n', pData->pDestFile);
 
+        /* nothing could be decoded here: do not stay on this address forever */
+
+        if (!Info.CodeLen) {
+            break;
+        }
         Address += Info.CodeLen;
     }
 }
